@@ -156,12 +156,30 @@ def run(chk, w):
                                 continue
                         good = False
                         why = "depends on %s in %s" % (_describe(lf_fn, leaf), lf_fn.name)
+                # a flag computed by a helper: every path through the helper consults the board (no return that decides 'no mirror' before the lookup)
+                if good:
+                    for s in stores:
+                        for (lf_fn, leaf) in deep_leaves(P, disp, s["val"]):
+                            if lf_fn is disp:
+                                continue
+                            li = lf_fn.resolve(leaf)
+                            if li is None or li.op != "load" or rules.field_path_of_ptr(P, lf_fn, li["ptr"]) != FIELD:
+                                continue
+                            bp = lf_fn.resolve(li["ptr"])
+                            lk = [t for t in (flow.origins(lf_fn, bp["base"]) if bp is not None and bp.op == "getelementptr" else set()) if t[0] == "call"]
+                            lk_ids = {t[2] for t in lk if len(t) > 2}
+                            if not lk_ids:
+                                continue
+                            pth = rules.exists_path(lf_fn, lf_fn.blocks[0].insts[0], "exit", lambda x, ids=lk_ids: x.id in ids, include_start=True)
+                            if pth:
+                                good = False
+                                why = "%s can return without looking the sender board up (%s)" % (lf_fn.name, rules.path_text(pth))
                 if good:
                     guard_ok = True
             if guard_ok:
                 chk.ok("C19-GUARD", 1, {"report": rep, "mirror_call": c.loc()})
             else:
-                chk.violation("C19-GUARD", disp.name, rep, c.loc(), "%s: the mirror call is not guarded by (only) the sender board's current secack_on flag%s" % (rep, ""))
+                chk.violation("C19-GUARD", disp.name, rep, c.loc(), "%s: the mirror call is not guarded by (only) the sender board's current secack_on flag%s" % (rep, (": " + why) if why else ""))
             # ARGS
             offs = []
             addr_ok = False
